@@ -207,17 +207,19 @@ theorem C18_by_uuid_relay (md5 : Str → Str) (s : Script) (c : Coll)
 
 /-! ## rewriteManifest -/
 
-/-- what `rewriteManifest` may do to a token: block tokens are rewritten hint by hint -/
+/-- what `rewriteManifest` may do to a token: in a block token, the part before the first newline
+is rewritten hint by hint; everything from the first newline on is kept -/
 def specTok (id t : Str) : Str :=
-  if locPrefix t then joinWith '+' (mapTail (specHint id) (splitOn '+' t)) else t
+  if locPrefix t then joinWith '+' (mapTail (specHint id) (splitOn '+' (linePart t))) ++ restPart t else t
 
 /-- For every manifest text and cluster id: the relayed text consists of the same number of
 space-delimited tokens joined by the same single spaces; the first token (the first stream name)
 and every token that does not begin with 32 hex digits and `+` (file tokens, and with them the
-newline and stream name that follow a file token) are byte-identical; in a block token the part
-before the first `+` (the hash) and every `+`-separated field that does not begin with `A` (size,
-other hints) are byte-identical and in place, and each field `A…` has become `R<id>-…`. If every
-block token carries a size the portable data hash is unchanged. -/
+newline and stream name that follow a file token) are byte-identical; in a block token
+everything from its first newline on is byte-identical, and before it the part before the first
+`+` (the hash) and every `+`-separated field that does not begin with `A` (size, other hints) are
+byte-identical and in place, and each field `A…` has become `R<id>-…`. If every block token
+carries a size the portable data hash is unchanged. -/
 theorem C18_rewrite_only_signatures (mt id : Str) (hid : ' ' ∉ id) :
     rewriteManifest mt id = joinWith ' ' (splitOn ' ' (rewriteManifest mt id)) ∧
     splitOn ' ' (rewriteManifest mt id) = mapTail (specTok id) (splitOn ' ' mt) ∧
@@ -230,65 +232,60 @@ theorem C18_rewrite_only_signatures (mt id : Str) (hid : ' ' ∉ id) :
     simp only [rewriteTok, specTok, replaceSig_eq_hints]
   · rw [rewriteManifest_tokens mt id hid, mapTail_length]
 
-/-- A token without `+A` is relayed unchanged, whatever it is. -/
+/-- A token without `+A` before its first newline is relayed unchanged, whatever it is. -/
 theorem C18_rewrite_fixes_tokens_without_sig (id t : Str)
-    (h : ∀ f ∈ (splitOn '+' t).tail, f.head? ≠ some 'A') : specTok id t = t := by
+    (h : ∀ f ∈ (splitOn '+' (linePart t)).tail, f.head? ≠ some 'A') : specTok id t = t := by
   unfold specTok
   split
-  · have : mapTail (specHint id) (splitOn '+' t) = splitOn '+' t := by
-      cases hs : splitOn '+' t with
+  · have : mapTail (specHint id) (splitOn '+' (linePart t)) = splitOn '+' (linePart t) := by
+      cases hs : splitOn '+' (linePart t) with
       | nil => rfl
       | cons a as =>
         rw [hs] at h
         simp only [mapTail, List.cons.injEq, true_and]
         exact map_specHint_id id as h
-    rw [this, joinWith_splitOn]
+    rw [this, joinWith_splitOn, linePart_append_restPart]
   · rfl
 
-/-- Full strength reading of "stream names are unchanged": no space-delimited token that contains
-a newline (i.e. that carries a stream name of the second or a later line) is altered. -/
+/-- "Stream names are unchanged", at full strength: whatever a space-delimited token carries from
+its first newline on — the stream name of the next line (a stream name never follows a space) — is
+byte-identical in the relayed text, for every manifest text. Together with the first token being
+identical this covers every stream name. (False before fix d80c6cd: F18a.) -/
 def C18_rewrite_only_signatures_Full : Prop :=
-  ∀ mt id : Str, ' ' ∉ id → ∀ (i : Nat) (t : Str), (splitOn ' ' mt)[i]? = some t → '\n' ∈ t →
-    (splitOn ' ' (rewriteManifest mt id))[i]? = some t
+  ∀ mt id : Str, ' ' ∉ id → '\n' ∉ id → ∀ (i : Nat) (t : Str), (splitOn ' ' mt)[i]? = some t →
+    ∃ t', (splitOn ' ' (rewriteManifest mt id))[i]? = some t' ∧ restPart t' = restPart t
+
+theorem C18_rewrite_only_signatures_full : C18_rewrite_only_signatures_Full := by
+  intro mt id hid hnl i t ht
+  rw [rewriteManifest_tokens mt id hid, mapTail_getElem?]
+  split
+  · exact ⟨t, ht, rfl⟩
+  · rw [ht]
+    refine ⟨rewriteTok id t, rfl, ?_⟩
+    unfold rewriteTok
+    split
+    · -- the rewritten line part contains no newline, so the rest part starts where it did
+      have hno : ∀ c ∈ replaceSig id (linePart t), notNL c = true := by
+        intro c hc
+        rcases replaceSig_mem id _ c hc with h | h | h | h
+        · exact List.all_eq_true.mp List.all_takeWhile c h
+        · have : c ≠ '\n' := fun e => hnl (e ▸ h)
+          simp [notNL, this]
+        · subst h; decide
+        · subst h; decide
+      unfold restPart
+      rw [dropWhile_append_of_all _ _ hno]
+      exact dropWhile_dropWhile _ _
+    · rfl
 
 def f18aManifest : Str :=
   ". 0123456789abcdef0123456789abcdef+3\n./x+Ay 0123456789abcdef0123456789abcdef+3 0:3:f\n".toList
 
-/-- F18a: `[^ ]*` runs across the newline when a block locator ends a line; the stream name of
-the next line is then rewritten (`./x+Ay` → `./x+Rzzzzz-y`). -/
-theorem C18_rewrite_only_signatures_full_fails : ¬ C18_rewrite_only_signatures_Full := by
-  intro h
-  have := h f18aManifest "zzzzz".toList (by decide) 1
-    "0123456789abcdef0123456789abcdef+3\n./x+Ay".toList (by decide) (by decide)
-  revert this
-  decide
-
-/-- …and it holds for every manifest in which no block token contains a newline, i.e. in which no
-line ends in a block locator (true of every valid manifest: a stream has at least one file token). -/
-theorem C18_rewrite_only_signatures_partial (mt id : Str) (hid : ' ' ∉ id)
-    (hwf : ∀ t ∈ (splitOn ' ' mt).tail, locPrefix t = true → '\n' ∉ t) :
-    ∀ (i : Nat) (t : Str), (splitOn ' ' mt)[i]? = some t → '\n' ∈ t →
-      (splitOn ' ' (rewriteManifest mt id))[i]? = some t := by
-  intro i t ht hnl
-  rw [rewriteManifest_tokens mt id hid, mapTail_getElem?]
-  split
-  · exact ht
-  · rename_i hi
-    rw [ht]
-    simp only [Option.map_some, Option.some.injEq, rewriteTok]
-    have hmem : t ∈ (splitOn ' ' mt).tail := by
-      cases hs : splitOn ' ' mt with
-      | nil => rw [hs] at ht; simp at ht
-      | cons a as =>
-        rw [hs] at ht
-        cases i with
-        | zero => exact absurd rfl hi
-        | succ n =>
-          simp only [List.getElem?_cons_succ] at ht
-          exact List.mem_of_getElem? ht
-    split
-    · rename_i hl; exact absurd hnl (hwf t hmem hl)
-    · rfl
+/-- the former F18a witness: the stream name `./x+Ay` after a line-final block locator survives,
+while a signature on that locator is still rewritten -/
+example : rewriteManifest f18aManifest "zzzzz".toList = f18aManifest := by decide
+example : rewriteManifest ". 0123456789abcdef0123456789abcdef+3+Afoo\n./x+Ay 0:3:f\n".toList "zzzzz".toList
+    = ". 0123456789abcdef0123456789abcdef+3+Rzzzzz-foo\n./x+Ay 0:3:f\n".toList := by decide
 
 /-! ## PortableDataHash against the published definition -/
 
